@@ -3,8 +3,9 @@
    inside Coq (harness/floatcases.py).
 
    1. Bucket.get's rounding written with the float expressions the code uses
-      (PyFloat.bucket_start_us / bucket_end_parts); Proofs/WindowFloat.v proves them equal
-      to the integer arithmetic of Model/Window.v.
+      (PyFloat.bucket_start_us / bucket_end_parts) on a reading (utc, off), and as the code
+      applies them: on the UTC reading of the edge (bucket_round_*_f); Proofs/WindowFloat.v
+      proves them equal to the integer arithmetic of Model/Window.v.
    2. sqlite.py's window parameters `t.timestamp() * 1000000` as the integers SQLite's
       exact INTEGER-vs-REAL comparison makes of them: ceiling for `endtime >= ?`, floor
       for `starttime <= ?`. *)
@@ -20,6 +21,13 @@ Definition round_start_f (utc off : Z) : res Z :=
 Definition round_end_f (utc off : Z) : res Z :=
   bind (bucket_end_parts (us_field utc off)) (fun p =>
     Ok (replace_us utc off (snd p) + fst p * 1000000)).
+
+(* Bucket.get on an aware edge (utc, off), since 49e3288: converted to UTC first
+   (Window.astimezone_utc), then the float expressions above on the fields of that reading *)
+Definition bucket_round_start_f (utc off : Z) : res Z :=
+  let d := astimezone_utc utc off in round_start_f (fst d) (snd d).
+Definition bucket_round_end_f (utc off : Z) : res Z :=
+  let d := astimezone_utc utc off in round_end_f (fst d) (snd d).
 
 (* floor and ceiling of a finite binary64 as exact integers *)
 Definition float_floor (f : float) : res Z :=
@@ -61,4 +69,4 @@ Definition sq_params_read (ws we : option Z) : list Z :=
 (* the rounding as the floats compute it, for a correspondence case:
    [ok?; start'] ++ [ok?; end'] *)
 Definition round_f_case (utc off : Z) : list Z :=
-  enc_res enc_Z (round_start_f utc off) ++ enc_res enc_Z (round_end_f utc off).
+  enc_res enc_Z (bucket_round_start_f utc off) ++ enc_res enc_Z (bucket_round_end_f utc off).
